@@ -111,3 +111,10 @@ Qed.
 
 Lemma utf8_encode_app a b : utf8_encode (a ++ b) = utf8_encode a ++ utf8_encode b.
 Proof. unfold utf8_encode. rewrite flat_map_app, map_app. reflexivity. Qed.
+
+(* Unicode White_Space *)
+Definition is_space_cp (c : N) : bool :=
+  ((9 <=? c) && (c <=? 13)) || (c =? 0x20) || (c =? 0x85) || (c =? 0xA0) || (c =? 0x1680) ||
+  ((0x2000 <=? c) && (c <=? 0x200A)) || (c =? 0x2028) || (c =? 0x2029) || (c =? 0x202F) ||
+  (c =? 0x205F) || (c =? 0x3000).
+
